@@ -15,7 +15,7 @@ Definition ann__jitfix_iset (l : nat) : annot :=
                    (fun st0 st => 0 <= getZ st "ct" <= getZ st "i")
   | 1%nat => ALoop [("i", KInt); ("newstart", KSc); ("newend", KSc); ("to_warn", KArr)]
                    (fun st0 st => getZ st0 "i" <= getZ st "i")
-  | 2%nat => ALoop [("i", KInt); ("newend", KSc); ("to_warn", KArr)]
+  | 5%nat => ALoop [("i", KInt); ("newend", KSc); ("to_warn", KArr)]
                    (fun st0 st => getZ st0 "i" <= getZ st "i" < getZ st0 "m")
   | _ => ANone
   end.
